@@ -259,6 +259,11 @@ class C09(Prop):
         acc.sig(env.sig(name, step, fault[:3]))
         tag = f"{name} step {step} fault {fault[:3]}"
         exc = rec.exc
+        # 0. whatever the device returned, the operation must come back: the device has sent all it was going to send
+        if rec.outcome == "raise" and type(exc).__name__ == "OperationHung":
+            acc.violation(f"operation-never-completes:{'state-query' if name in STATE_QUERIES else 'command'}",
+                          f"{tag}: {exc}; the client is waiting for bytes the device never sends", {"reply": inj if isinstance(inj, str) else inj.hex()[:400]})
+            return
         # 1. state queries: parsed response or RuntimeError, nothing else
         if name in STATE_QUERIES:
             if rec.outcome == "raise" and type(exc) is not RuntimeError:
